@@ -636,6 +636,9 @@ def run(chk):
     transfer_rule(chk, src, "overlap-kernel")
     chk.rule("entry-gauge", "tangent-space schemes orthonormalise the state (centre at the sweep start) before building environments, for every direction flag; VMF may skip only with overlap matrices", 20)
     entry_gauge_rule(chk, src, "entry-gauge")
+    chk.rule("midpoint-reentry", "constant mean field with midpoint environment (abstract runs): the dispatcher is re-entered with half the step in the same time mode, refinements off, configuration restored", 4)
+    from .chain_rules import cmf_midpoint_rule
+    cmf_midpoint_rule(chk, src, "midpoint-reentry")
     chk.rule("step-doubling", "abstract run of the adaptive TDVP wrapper with scripted error estimates", 3)
     step_doubling_rule(chk, src, "step-doubling", rule_kind="relative-error-homogeneous")
     from .chain_rules import pc_evolver_rule
